@@ -35,9 +35,20 @@ def run(chk: Check) -> None:
     steps = [n for n in cfg.nodes if any(norm(c.func) == 'self._stepper.step' for c in _calls(n))]
     ok = len(reset) == 1 and bool(steps) and cfg.must_pass(cfg.entry, steps, lambda m: m in reset, edge_ok=no_exc)
     chk.ob('DOM-barrier-wait', ds, ok, 'the registrations of a step start empty (those of earlier steps were already awaited)', kind='reset-before-step')
-    tc = [n for n in cfg.nodes if any(norm(c.func) == 'self.to_context' and [(k.arg, norm(k.value)) for k in c.keywords] == [(None, 'return_value')] for c in _calls(n))]
-    ok = len(tc) == 1 and all(any(a[0] == 'isinst' or 'isinstance(return_value, ToContext)' in a[1] for a in ff.at(x)) for x in tc) and all(
-        cfg.must_pass(cfg.entry, [w], lambda m: m in tc or (m.kind == 'test' and 'isinstance(return_value, ToContext)' == norm(m.ast.test)), edge_ok=no_exc) for w in waits)
+    from ..decisions import paths_under
+    tc = [n for n in cfg.nodes if any(norm(c.func) == 'self.to_context' and len(c.keywords) == 1 and c.keywords[0].arg is None and isinstance(c.keywords[0].value, ast.Name) for c in _calls(n))]
+    ok = len(tc) == 1
+    if ok:
+        rvn = [c.keywords[0].value.id for c in _calls(tc[0]) if norm(c.func) == 'self.to_context'][0]
+        ok = all(any((a[0] == 'isinst' and a[1] == rvn) or (a[0] == 'T' and a[1] == f'isinstance({rvn}, ToContext)') for a in ff.at(x)) for x in tc)
+        # decision table: when the value IS a ToContext, every path that goes on (Wait / Continue) has registered it first
+        n_on = 0
+        for path in paths_under(ff, {f'isinstance({rvn}, ToContext)': True}, frozen=[rvn]):
+            ends = [m for m in path if m in waits or m in conts]
+            if ends:
+                n_on += 1
+                ok &= any(m in tc for m in path[:path.index(ends[0])])
+        ok &= n_on >= 1
     chk.ob('DOM-barrier-wait', ds, ok, 'a returned ToContext is registered through to_context before the decision to wait is taken', kind='tocontext-registered')
     t2 = prog.func('workchains.WorkChain.to_context')
     stores = [n for n in ast.walk(t2.node) if isinstance(n, ast.Assign) and isinstance(n.targets[0], ast.Subscript) and norm(n.targets[0].value) == 'self._awaitables']
